@@ -41,7 +41,11 @@ type proxyCase struct {
 	Two      bool     `json:"two_concurrent,omitempty"`
 	LogOff   bool     `json:"operator_switches_message_log_off,omitempty"`
 	NMEAOnly bool     `json:"nmea_sentence_per_chunk,omitempty"`
-	Seed     uint64   `json:"seed"`
+	// the first connection's client data is frames with request text in between, each
+	// piece written on its own (with a pause), the text also in the middle of a frame
+	OwnWrites bool   `json:"request_text_written_on_its_own,omitempty"`
+	WriteAt   []int  `json:"client_writes_begin_at,omitempty"`
+	Seed      uint64 `json:"seed"`
 	// stall sessions: the upstream stops reading for StallMs during an upload of StallBytes
 	StallMs    int `json:"upstream_stall_ms,omitempty"`
 	StallBytes int `json:"upload_bytes,omitempty"`
@@ -565,7 +569,18 @@ func execC19Session(c *child.Ctx, k proxyCase, cj []byte) {
 		clientSent, serverSent := make(chan struct{}), make(chan struct{})
 		go func() {
 			defer wg.Done()
-			if k.NMEAOnly && ci == 0 {
+			if k.OwnWrites && ci == 0 {
+				// pieces: [frames][half a frame][request text][the other half][frames] ...
+				prev := 0
+				for _, at := range append(append([]int(nil), k.WriteAt...), len(clientBytes)) {
+					if at > prev && at <= len(clientBytes) {
+						conn.Write(clientBytes[prev:at])
+						prev = at
+						tick()
+						time.Sleep(4 * time.Millisecond) // the proxy reads each piece on its own
+					}
+				}
+			} else if k.NMEAOnly && ci == 0 {
 				// one complete sentence per write, with a pause, so that the proxy reads each on its own
 				rest := clientBytes
 				for len(rest) > 0 {
@@ -1192,6 +1207,11 @@ func execC19HalfClose(c *child.Ctx, k proxyCase, cj []byte) {
 	first := append(ntripRequest(r), proxyStream(r, r.Range(100, 2000))...)
 	answer := casterAnswer(r)
 	rest := proxyStream(r, r.Range(2000, 20000))
+	if k.StallBytes > 0 {
+		// a large upload that the client finishes and hangs up on while the server is
+		// slow to read: the server still gets all of it
+		rest = proxyStream(r, k.StallBytes)
+	}
 	sent1 := make(chan struct{})
 	go func() { writeChunks(conn, first, k.Chunk, k.GapUs, ref.NewRand(k.Seed+1)); close(sent1) }()
 	got := readN(up, len(first), 20*time.Second, sent1)
@@ -1205,7 +1225,17 @@ func execC19HalfClose(c *child.Ctx, k proxyCase, cj []byte) {
 	gotAns := readN(conn, len(answer), 20*time.Second, ansSent)
 	time.Sleep(time.Duration(r.Range(0, 50)) * time.Millisecond)
 	sent2 := make(chan struct{})
-	go func() { writeChunks(conn, rest, k.Chunk, k.GapUs, ref.NewRand(k.Seed+2)); close(sent2) }()
+	go func() {
+		writeChunks(conn, rest, k.Chunk, k.GapUs, ref.NewRand(k.Seed+2))
+		if k.StallBytes > 0 {
+			conn.Close() // the client hangs up as soon as it has written everything
+		}
+		close(sent2)
+	}()
+	if k.StallBytes > 0 {
+		<-sent2
+		sleepTicking(300 * time.Millisecond) // the server gets round to reading only now
+	}
 	got = append(got, readN(up, len(rest), 20*time.Second, sent2)...)
 	if !p.alive() {
 		c.Violate("proxy-died", "the proxy process ended after the server shut down its sending side: "+p.stderrTail(), cj)
@@ -1430,6 +1460,9 @@ func monC19(c *child.Ctx, replay json.RawMessage) {
 	}
 	for i := 0; i < c.Share(c.Pick(10, 400)) && c.NViolations() == 0; i++ {
 		k := proxyCase{ID: c.Batch*10000 + 9700 + i, Kind: "halfclose", Seed: r.Uint64() >> 1, Chunk: []int{0, 17, 512, 4096}[r.Intn(4)], GapUs: []int{0, 200}[r.Intn(2)]}
+		if i%2 == 1 {
+			k.StallBytes, k.Chunk, k.GapUs = r.Range(300000, 600000), 16384, 0
+		}
 		cj := c.BeginV(k)
 		execC19HalfClose(c, k, cj)
 		c.Eval(ref.Hash64(cj), true)
@@ -1449,6 +1482,26 @@ func monC19(c *child.Ctx, replay json.RawMessage) {
 				// the way a session begins: the client's request, the caster's answer
 				cs = append(ntripRequest(r), cs...)
 				ss = append(casterAnswer(r), ss...)
+			}
+			if i%4 == 2 && j == 0 {
+				// request-like text arriving on its own in the middle of the binary stream,
+				// even in the middle of a frame (a client that re-sends its request)
+				k.OwnWrites = true
+				cs = nil
+				for n := r.Range(3, 8); n > 0; n-- {
+					cs = append(cs, gen.CleanStream(r, gen.CleanOpts{MinFrames: 1, MaxFrames: 3, SmallFrames: true}).Bytes()...)
+					f := gen.RandFrame(r)
+					for len(f.Bytes) < 20 || len(f.Bytes) > 200 {
+						f = gen.RandFrame(r)
+					}
+					cut := r.Range(5, len(f.Bytes)-5)
+					cs = append(cs, f.Bytes[:cut]...)
+					k.WriteAt = append(k.WriteAt, len(cs))
+					cs = append(cs, ntripRequest(r)...)
+					k.WriteAt = append(k.WriteAt, len(cs))
+					cs = append(cs, f.Bytes[cut:]...)
+				}
+				cs = append(cs, gen.RandFrame(r).Bytes...)
 			}
 			if i%5 == 2 && j == 0 {
 				// text-only traffic: complete NMEA sentences, some with markup in the text
